@@ -43,3 +43,128 @@ def write_set(db: DB, hi: HostInterp) -> Dict[str, List[str]]:
     for k in e.writes:
       out.setdefault(k, []).append(f"{e.ev.name or e.ev.kind}@{e.ev.loc}")
   return out
+
+
+# ------------------------------------------------------------------------------ scratch reuse in host loops
+def _has_ld(t) -> bool:
+  from ..terms import T, subterms
+
+  return any(isinstance(s, T) and s.op in ("ld", "at") for s in subterms(t))
+
+
+def _scatter_dims(lc, key) -> Dict[int, str]:
+  """Dimensions in which kernel `lc` writes `key` at a data-dependent index (value loaded from memory)."""
+  out: Dict[int, str] = {}
+  for a in lc.keval.accesses:
+    if a.kind not in ("w", "tile_w") and not a.kind.startswith("atomic"):
+      continue
+    hv = lc.binding.get(a.root.split(".")[0])
+    if key not in effects._keys(hv):
+      continue
+    for d, ix in enumerate(a.idx):
+      if _selects(lc, ix):
+        out.setdefault(d, a.loc)
+  return out
+
+
+def _selects(lc, ix) -> bool:
+  """Is the index the value of a sparse-structure selection array (a `*colind` schema field)? Such a store touches
+  only the columns of one sparse row; address+offset ranges over a partition (block solves) are not selections."""
+  from ..terms import T, alternatives
+
+  for alt in alternatives(ix):
+    if isinstance(alt, T) and alt.op == "ld":
+      spec = lc.field(str(alt.args[0]))
+      if spec is not None and spec.path.split(".")[-1].endswith("colind"):
+        return True
+  return False
+
+
+def _dense_read_dims(lc, key) -> Dict[int, str]:
+  """Dimensions in which kernel `lc` reads `key` at an index that does not depend on loaded data."""
+  out: Dict[int, str] = {}
+  for a in lc.keval.accesses:
+    if a.kind not in ("r", "tile_r", "arr_read"):
+      continue
+    hv = lc.binding.get(a.root.split(".")[0])
+    if key not in effects._keys(hv):
+      continue
+    if a.kind == "arr_read" or not a.idx:
+      out.setdefault(-1, a.loc)
+      continue
+    for d, ix in enumerate(a.idx):
+      if not _has_ld(ix):
+        out.setdefault(d, a.loc)
+  return out
+
+
+def _clears(lc, key, dims=None) -> bool:
+  """Does kernel `lc` store to `key` at indices that (in the scattered dimensions) do not depend on loaded data
+  (an in-kernel clear / dense fill of the row)?"""
+  for a in lc.keval.accesses:
+    if a.kind not in ("w", "tile_w") or getattr(a, "rmw", False):
+      continue
+    hv = lc.binding.get(a.root.split(".")[0])
+    if key not in effects._keys(hv):
+      continue
+    if not any(_has_ld(ix) for d, ix in enumerate(a.idx) if dims is None or d in dims):
+      return True
+  return False
+
+
+def check_loop_scratch(res, db: DB, hi: HostInterp, entry: str) -> int:
+  """R-LIVE.4: inside a host loop, an array that one kernel fills by data-dependent scatter (sparse row ->
+  dense vector) and a later event of the same iteration reads densely must be cleared in that same
+  iteration before the scatter (fill / zero_ / allocation inside the body / dense stores by a kernel):
+  otherwise cells scattered in an earlier iteration are still there. Returns the number of instances."""
+  from ..report import Finding
+
+  effs = effects.trace_effects(db, hi)
+  n = 0
+  # group body events per innermost-or-outer loop id
+  loops: Dict[str, List[effects.Effect]] = {}
+  for e in effs:
+    for lid in e.ev.loops:
+      loops.setdefault(lid, []).append(e)
+  for lid, body in loops.items():
+    if ":for " not in lid:
+      continue
+    cleared: Dict[str, bool] = {}
+    scattered: Dict[str, tuple] = {}
+    for e in body:
+      # reads first (a kernel that scatters and reads the same key is its own business)
+      for k in e.reads:
+        if k in scattered and not (e.lc is not None and k in e.writes):
+          dims, wloc, wname, was_cleared = scattered[k]
+          if e.lc is not None:
+            dense = _dense_read_dims(e.lc, k)
+            hit = [d for d in dims if d in dense or -1 in dense]
+          else:
+            hit = list(dims)  # copy / ext / host read: whole array
+          if not hit:
+            continue
+          n += 1
+          res.ob(
+            was_cleared,
+            f"{entry}|{lid.split(':', 1)[1]}|{k}",
+            Finding(
+              "R-LIVE.4",
+              f"{entry}|{k}|stale-scratch-in-loop",
+              f"`{k}` is filled by data-dependent scatter in {wname} and then read densely by {e.ev.name or e.ev.kind} in every iteration of `{lid.split(':', 1)[1]}`, but nothing clears it inside the loop body before the scatter: entries scattered by earlier iterations survive",
+              wloc,
+              {"reader": e.ev.loc},
+            ),
+            sample={"loop": lid, "array": k, "scatter": wname, "reader": e.ev.name or e.ev.kind},
+          )
+          del scattered[k]
+      for k, kind in e.writes.items():
+        if kind == "full":
+          cleared[k] = True
+          scattered.pop(k, None)
+        elif e.lc is not None:
+          dims = _scatter_dims(e.lc, k)
+          if _clears(e.lc, k, dims or None):
+            cleared[k] = True
+          if dims and k not in scattered:
+            scattered[k] = (dims, next(iter(dims.values())), e.ev.name or "kernel", cleared.get(k, False))
+  return n
